@@ -11,6 +11,8 @@ from harness import relational as R
 S = load()
 
 PROPERTY = "C11"
+LEVEL_TEXT = 'Decision-table exploration: each (join kind, expect, left-unique, right-unique) cell realised by many generated key multisets; oracle computed from the generated keys; invalid expect values and declared defaults included.'
+LEVEL_NOTE = 'Uniqueness = pairwise inequality of key tuples under Python ==.'
 DESIGN_REF = "DESIGN.md §5 C11"
 ENGINE = "relational"
 LEVEL = "exploration"
